@@ -78,6 +78,12 @@ func (C02) Gen(rt *rapid.T, tier string) any {
 	if os.Getenv("VERIF_X_ONLY") == "containerd-graph" {
 		kind = "containerd-graph"
 	}
+	if pick(rt, 1000, "eggbomb") < 3 && os.Getenv("VERIF_X_ONLY") == "" || os.Getenv("VERIF_X_ONLY") == "eggbomb" {
+		kind = "eggbomb"
+	}
+	if mode == "sim" && chance(rt, 6, "compfault") && os.Getenv("VERIF_X_ONLY") == "" || os.Getenv("VERIF_X_ONLY") == "companion-fault" {
+		kind = "companion-fault"
+	}
 	maxV := 256 << 10
 	if chance(rt, 10, "bigvictim") {
 		maxV = maxFixtureBytes
@@ -178,6 +184,27 @@ func (C02) Gen(rt *rapid.T, tier string) any {
 			if p.add(FileSpec{Path: oneOf(rt, []string{"etc/os-release", "etc/os-release", "usr/lib/os-release"}, "osr.path"), Src: src, CorruptFifo: fifo}) {
 				victim = len(p.files) - 1
 			}
+		}
+	case "eggbomb":
+		// an .egg whose metadata entry inflates beyond the extractor's size limit (100 MiB) as one
+		// long header line: a tiny archive, an entry the extractor must refuse by its uncompressed size
+		if has(enabled, "python/wheelegg") {
+			i := p.next
+			p.next++
+			name := oneOf(rt, []string{"EGG-INFO/PKG-INFO", "bomb-1.0.dist-info/METADATA", "bomb.egg-info/PKG-INFO"}, "egg.entry")
+			ents := []ZipEnt{{Name: "bomb.py", Src: Src{Text: "print('x')\n"}},
+				{Name: name, Deflate: true, Src: Src{Text: "Metadata-Version: 2.1\nName: bomb\nVersion: 1.0\nSummary: ", Pad: oneOf(rt, []int{160 << 20, 256 << 20}, "egg.size")}}}
+			if p.add(FileSpec{Path: fmt.Sprintf("%s/bomb%d-1.0-py3.10.egg", sitePkgs, i), Src: Src{Zip: ents}}) {
+				victim = len(p.files) - 1
+				avoid["python/wheelegg"] = true
+			}
+		}
+	case "companion-fault":
+		// several healthy files of extractors that open a COMPANION file through input.FS (os-release,
+		// go.sum, _locales, -r includes), and a one-shot fault on the k-th open or read of that
+		// companion: only the Extract call that met the fault may differ from the fault-free run
+		if mode == "sim" {
+			victim = genCompanionFault(rt, p, cov, avoid)
 		}
 	case "elfbomb":
 		// structured input: a small ELF file whose one section inflates to 256 MiB - a kernel
@@ -385,7 +412,7 @@ func (C02) Gen(rt *rapid.T, tier string) any {
 	}
 	if !v.Src.HasOps() && (kind != "include" || rapid.Bool().Draw(rt, "incops")) && kind != "foreign" && (kind != "zipbomb" || rapid.Bool().Draw(rt, "zbops")) &&
 		kind != "symlink" && (kind != "nostat" || rapid.Bool().Draw(rt, "nsops")) && !v.CorruptFifo &&
-		((kind != "elfbomb" && kind != "containerd-graph") || chance(rt, 20, "structops")) {
+		kind != "companion-fault" && ((kind != "elfbomb" && kind != "containerd-graph" && kind != "eggbomb") || chance(rt, 20, "structops")) {
 		v.Src.Ops = genOps(rt, vb, "op")
 	}
 	if kind == "foreign" && rapid.Bool().Draw(rt, "fops") {
@@ -403,6 +430,16 @@ func (C02) Gen(rt *rapid.T, tier string) any {
 			}
 			// one-shot, or persistent from the k-th read on (a bad block stays bad)
 			sc.Disk.Faults = []scan.Fault{{Op: "read", Path: v.Path, K: k, Kind: oneOf(rt, []string{"eio", "eio-partial", "perm"}, "fault.kind"), Sticky: chance(rt, 40, "fault.sticky")}}
+		}
+		if kind == "companion-fault" {
+			opens := 0
+			for _, f := range sc.Files {
+				if f.Group == v.Group && v.Group > 0 || strings.HasPrefix(f.Path, "var/") || strings.HasPrefix(f.Path, "lib/") {
+					opens++
+				}
+			}
+			sc.Disk.Faults = []scan.Fault{{Op: oneOf(rt, []string{"open", "open", "read"}, "cf.op"), Path: v.Path, K: 1 + pick(rt, opens+1, "cf.k"),
+				Kind: oneOf(rt, []string{"eio", "perm", "notexist"}, "cf.kind"), Sticky: chance(rt, 15, "cf.sticky")}}
 		}
 		if kind == "nostat" {
 			// the path is accepted by name, but the file cannot be stat'ed when FileRequired asks
@@ -636,6 +673,15 @@ func (c C02) evaluate(sc *C02Scenario) *sim.Outcome {
 	dependent := map[string]bool{} // "ext|path" of Extract calls that saw the victim group
 	for _, o := range []*Obs{base, cor} {
 		for _, er := range o.Extracts {
+			if sc.Kind == "companion-fault" {
+				// the companion is healthy; what may differ is exactly the call during which the
+				// planned fault fired
+				if er.FaultHit {
+					owners[er.Ext] = true
+					dependent[er.Ext+"|"+er.Path] = true
+				}
+				continue
+			}
 			dep := vg[er.Path]
 			for _, tp := range er.Touched {
 				if vg[tp] {
@@ -738,7 +784,7 @@ func (c C02) evaluate(sc *C02Scenario) *sim.Outcome {
 		var failedBefore []string
 		for _, e := range cor.Enabled {
 			req, consulted := cor.Required[e][p]
-			if _, was := base.Required[e][p]; !consulted && was || consulted && req && !extracted[e+"|"+p] && !(openFails && p == v.Path) {
+			if _, was := base.Required[e][p]; !consulted && was || consulted && req && !extracted[e+"|"+p] && !(openFails && p == v.Path) && cor.EngineOpenFaults[p] == 0 {
 				what := "not consulted"
 				if consulted {
 					what = "required the file but did not get it"
@@ -767,6 +813,14 @@ func (c C02) evaluate(sc *C02Scenario) *sim.Outcome {
 		if openFails && cor.Required[e][v.Path] {
 			anyErr = true
 			owners[e] = true
+		}
+		for _, fp := range sortedKeys(cor.EngineOpenFaults) {
+			// an injected fault hit the engine's open of a file this extractor required: that is
+			// this extractor's error for that file
+			if cor.Required[e][fp] && !extracted[e+"|"+fp] {
+				anyErr = true
+				owners[e] = true
+			}
 		}
 		want := plugin.ScanStatusSucceeded
 		if anyErr && found {
@@ -961,4 +1015,75 @@ func memOver(er *ExtractRec, treeBytes int) (kind string, limitMB, gotMB int64) 
 		return "allocated", lim, er.TotalMB
 	}
 	return "", 0, 0
+}
+
+// genCompanionFault places 2-4 healthy files of each of one or two extractors that read a
+// companion file through input.FS, plus the (healthy) companion; returns the companion's index.
+func genCompanionFault(rt *rapid.T, p *placer, cov []string, avoid map[string]bool) int {
+	t := p.t
+	switch oneOf(rt, []string{"osrelease", "osrelease", "osrelease", "gosum", "include"}, "cf.what") {
+	case "gosum":
+		if !has(cov, "go/gomod") {
+			return -1
+		}
+		// several old go.mod files, each with its own go.sum: the victim is one of the go.sum files
+		var sums []int
+		for k, n := 0, 2+pick(rt, 2, "cf.n"); k < n; k++ {
+			i := p.next
+			p.next++
+			d := inst(drawDir(rt, fmt.Sprintf("cf.dir%d", k), false), "", i, "")
+			p.group++
+			p.add(FileSpec{Path: d + "/go.mod", Group: p.group, Src: Src{Text: fmt.Sprintf("module example.com/m%d\n\ngo 1.16\n\nrequire example.com/dep%d v1.%d.0\n", k, k, k)}})
+			p.add(FileSpec{Path: d + "/go.sum", Group: p.group, Src: Src{Text: fmt.Sprintf("example.com/dep%d v1.%d.0 h1:AAAA=\nexample.com/dep%d v1.%d.0/go.mod h1:BBBB=\nexample.com/indirect%d v0.1.0/go.mod h1:CCCC=\n", k, k, k, k, k)}})
+			sums = append(sums, len(p.files)-1)
+			p.dirs[d] = true
+		}
+		avoid["go/gomod"] = true
+		return sums[pick(rt, len(sums), "cf.victim")]
+	case "include":
+		if !has(cov, "python/requirements") {
+			return -1
+		}
+		// several requirements files that include one shared file
+		i := p.next
+		p.next++
+		d := inst(drawDir(rt, "cf.dir", false), "", i, "")
+		p.add(FileSpec{Path: d + "/common/base.txt", Src: Src{Text: "requests==2.31.0\nurllib3==1.26.5\n"}})
+		v := len(p.files) - 1
+		for k, n := 0, 2+pick(rt, 2, "cf.n"); k < n; k++ {
+			p.add(FileSpec{Path: fmt.Sprintf("%s/svc-%c/requirements.txt", d, 'a'+k), Src: Src{Text: fmt.Sprintf("-r ../common/base.txt\nsvcdep%d==1.%d\n", k, k)}})
+		}
+		p.dirs[d] = true
+		avoid["python/requirements"] = true
+		return v
+	}
+	// os-release: one or two OS extractors with several database files each
+	var multi []string // OS extractors whose template allows several files in one tree
+	for _, e := range []string{"os/pacman", "os/portage", "os/snap", "os/flatpak", "os/kernel/module", "os/dpkg", "os/nix"} {
+		if has(cov, e) {
+			multi = append(multi, e)
+		}
+	}
+	if len(multi) == 0 {
+		return -1
+	}
+	for k, ne := 0, 1+pick(rt, 2, "cf.ne"); k < ne && len(multi) > 0; k++ {
+		ci := pick(rt, len(multi), fmt.Sprintf("cf.ext%d", k))
+		e := multi[ci]
+		multi = append(multi[:ci:ci], multi[ci+1:]...)
+		avoid[e] = true
+		for j, n := 0, 2+pick(rt, 3, fmt.Sprintf("cf.n%d", k)); j < n; j++ {
+			if fi := pickFixture(rt, t, e, 300_000, true, fmt.Sprintf("cf%d.%d", k, j)); fi >= 0 {
+				tmpl := homeTmpl(rt, t, fi, fmt.Sprintf("cf%d.%d.tm", k, j))
+				if e == "os/dpkg" {
+					tmpl = "var/lib/dpkg/status.d/{s}{i}"
+				}
+				p.place(fi, tmpl, drawDir(rt, fmt.Sprintf("cf%d.%d.dir", k, j), true))
+			}
+		}
+	}
+	if p.add(FileSpec{Path: oneOf(rt, []string{"etc/os-release", "etc/os-release", "usr/lib/os-release"}, "cf.path"), Src: Src{Text: oneOf(rt, osReleaseVariants, "cf.text")}}) {
+		return len(p.files) - 1
+	}
+	return -1
 }
